@@ -201,7 +201,7 @@ class C06(Prop):
     def extra_coverage(self):
         return {"loop_level_steps": dict(self.loop_cov),
                 "note": "loop-level steps replayed through the model rule; 'covered' = every hypothesis of loop_overlap_preserves holds; "
-                        "not_covered:launch-total = a launch after the copies depends on a rotated field (class of D26 / dedup-dropped "
+                        "not_covered:launch-observes-copy = a launch (or effectful call) may see a field last written by a copy (class of D26 / dedup-dropped "
                         "fields), not_covered:side = loopSide fails (e.g. non-pure statement in front of the setup)"}
 
     def oracle(self, case, impl_out):
